@@ -1,6 +1,8 @@
 #![allow(dead_code)]
 mod common;
 mod c19;
+mod c20;
+mod runner;
 
 use std::path::PathBuf;
 
@@ -39,6 +41,23 @@ fn main() {
     common::quiet_panics();
     match cmd.as_str() {
         "c19" => c19::run(&args),
+        "c20" => c20::run(&args),
+        "run" => {
+            // vh run file.bas [stdin-file]: prints the outcome of one program (debugging aid, used by replays)
+            let src = std::fs::read_to_string(&args.extra[0]).unwrap();
+            let stdin = args.extra.get(1).map(|p| std::fs::read(p).unwrap()).unwrap_or_default();
+            let o = runner::run_program(&src, &runner::RunOpts { stdin, budget: 5_000_000, trace: false });
+            match o {
+                runner::Outcome::Ran(r) => {
+                    println!("end: {:?}
+steps: {}
+stdout: {:?}
+lpt1: {:?}
+globals: {:?}", r.end, r.steps, runner::text(&r.stdout), runner::text(&r.lpt1), r.globals);
+                }
+                other => println!("{:?}", other),
+            }
+        }
         _ => {
             eprintln!("unknown command {}", cmd);
             std::process::exit(2);
